@@ -150,30 +150,38 @@ def stage_der(ctx):
 
 
 def stage_der_deep(ctx):
-    """Known finding: deeply nested constructed tags exhaust the Python stack instead of being rejected
-    (or decoded).  The model decodes any depth (C15_der_decode_total)."""
+    """Deep nesting: the model decodes any depth (C15_der_decode_total); the real decoder may instead report
+    ASN1DecodeError / KeyImportError once Python's recursion limit is reached (364f43a).  Anything else - in particular
+    RecursionError - is a failing input (finding C15-1)."""
     import asyncssh
     m = G.asn1()
-    for depth in (100, 500, 2000):
+    for depth in (100, 300, 600, 2000):
         b = G.nested_tags(depth)
         seq = b'\x30' + G._len(len(b)) + b           # a DER key file starts with a SEQUENCE
         ctx.note_case(('der-deep', depth), nontrivial=True)
-        for name, fn in (('der_decode', lambda: m.der_decode(b)),
-                         ('import_private_key', lambda: asyncssh.import_private_key(seq)),
-                         ('import_public_key', lambda: asyncssh.import_public_key(seq))):
+        for name, fn, documented in (('der_decode', lambda: m.der_decode(b), ('ASN1DecodeError',)),
+                                     ('import_private_key', lambda: asyncssh.import_private_key(seq), ('KeyImportError',)),
+                                     ('import_public_key', lambda: asyncssh.import_public_key(seq), ('KeyImportError',))):
             try:
-                fn()
+                r = fn()
                 out = 'ok'
-            except RecursionError:
-                out = 'RecursionError'
+                if name == 'der_decode':
+                    d = 0
+                    while isinstance(r, m.TaggedDERObject):
+                        r = r.value
+                        d += 1
+                    if d != depth or r is not None:
+                        out = 'wrong-value'
             except Exception as e:             # noqa
                 out = type(e).__name__
             ctx.count(f'der.deep{depth}.{name}.{out}')
-            if out == 'RecursionError':
+            if out != 'ok' and out not in documented:
                 ctx.failing_input(
-                    f'{name} of {depth} nested DER context tags ({len(b)} bytes) raised RecursionError instead of '
-                    f'decoding or raising the documented error',
-                    {'kind': 'der_deep_nesting', 'api': name, 'depth': depth})
+                    f'{name} of {depth} nested DER context tags ({len(b)} bytes) gave {out} instead of decoding or raising '
+                    f'{documented[0]}', {'kind': 'der_deep_nesting', 'api': name, 'depth': depth, 'outcome': out})
+    d = ctx.cov['distribution']
+    if not d.get('der.deep100.der_decode.ok') or not d.get('der.deep2000.der_decode.ASN1DecodeError'):
+        ctx.cov['oracle']['der_deep_note'] = 'depth limit not between 100 and 2000 on this interpreter'
 
 
 # ---------------------------------------------------------------------------------------------
@@ -382,14 +390,22 @@ def stage_armour(ctx):
     # export_public_key text forms
     cases_o, cases_r = [], []
     for alg, kw, key in key_pool(ctx):
-        for cm in (None, b'c', b'user@host two', b' lead', b'trail ', b'"q"', b'a\nb', b'\xff\x00\x80', b'x' * 100):
+        for cm in (None, b'c', b'user@host two', b' lead', b'trail ', b'"q"', b'a\nb', b'cr\rx', b'\n', b'\xff\x00\x80', b'x' * 100):
             key.set_comment(cm)
-            cases_o.append('(%s, %s, %s, %s)' % (zl(key.algorithm), zl(key.public_data), copt(cm, zl), zl(key.export_public_key('openssh'))))
-            cases_r.append('(%s, %s, %s)' % (zl(key.public_data), copt(cm, zl), zl(key.export_public_key('rfc4716'))))
+            outs = []
+            for fmt in ('openssh', 'rfc4716'):
+                try:
+                    outs.append(key.export_public_key(fmt))
+                    ctx.count('export_public.' + fmt + '.written')
+                except pk.KeyExportError:
+                    outs.append(None)
+                    ctx.count('export_public.' + fmt + '.refused')
+            cases_o.append('(%s, %s, %s, %s)' % (zl(key.algorithm), zl(key.public_data), copt(cm, zl), copt(outs[0], zl)))
+            cases_r.append('(%s, %s, %s)' % (zl(key.public_data), copt(cm, zl), copt(outs[1], zl)))
             ctx.note_case(('export_public', alg, repr(kw), cm), nontrivial=cm is not None)
         key.set_comment(None)
-    _corr(ctx, 'export_openssh_public', 'chk_export_openssh_public', cases_o, 'bytes * bytes * option bytes * bytes')
-    _corr(ctx, 'export_rfc4716', 'chk_export_rfc4716', cases_r, 'bytes * option bytes * bytes')
+    _corr(ctx, 'export_openssh_public', 'chk_export_openssh_public', cases_o, 'bytes * bytes * option bytes * option bytes')
+    _corr(ctx, 'export_rfc4716', 'chk_export_rfc4716', cases_r, 'bytes * option bytes * option bytes')
     # the three text parsers and _match_next
     algs = sorted(set(pk._public_key_alg_map) | set(pk._certificate_alg_map))
     calgs = 'algs'
@@ -466,7 +482,8 @@ def stage_armour(ctx):
     _corr(ctx, 'parse_openssh', 'chk_parse_openssh', c_ssh, 'list bytes * bytes * option (bytes * option bytes * bytes)', defs=adef)
     d = ctx.cov['distribution']
     for need in ('match_next.ODer', 'match_next.OPem', 'match_next.ORfc4716', 'match_next.OOpenSSH', 'match_next.ONone',
-                 'match_next.OImportError', 'a2b.accepted', 'a2b.rejected', 'parse_openssh.accepted'):
+                 'match_next.OImportError', 'a2b.accepted', 'a2b.rejected', 'parse_openssh.accepted',
+                 'export_public.openssh.written', 'export_public.openssh.refused', 'export_public.rfc4716.refused'):
         if not d.get(need):
             ctx.broke('vacuity:' + need, 'no generated case reached this class')
 
@@ -704,9 +721,8 @@ def _group(rp):
     if k in ('der_deep_nesting', 'der_recursion'):
         return 'der_deep_nesting'
     if rp.get('opts', {}).get('pbe_version') == 1 and \
-            (k == 'private_cross_type_passphrase' or
-             (rp.get('passphrase_is_bytes') and k in ('pyca_read_private', 'openssl_write_private'))):
-        return 'pkcs12_pbe_bytes_passphrase'
+            k in ('private_cross_type_passphrase', 'pyca_read_private', 'openssl_write_private'):
+        return 'pkcs12_pbe_passphrase'
     parts = [k]
     for f in ('format', 'api', 'encoding', 'm'):
         if rp.get(f) is not None:
@@ -740,13 +756,21 @@ class Collector:
         ctx.failing_input = self.real
         summary = {}
         order = sorted(self.groups, key=lambda g: (g.startswith('der_deep') or g.startswith('der_recursion'), g))
+        def is_known(rp):
+            return any(k.get('status') == 'known' and core.finding_matches(k, dict(rp, property=ctx.pid)) for k in ctx.known)
         for g in order:
             items = self.groups[g]
             summary[g] = len(items)
-            algs = sorted({str(rp.get('alg')) for _, rp in items})
-            what, rp = items[0]
-            rp = dict(rp, group=g, cases_in_group=len(items), key_types_in_group=algs)
-            ctx.failing_input(f'[{g}: {len(items)} case(s), key types {", ".join(algs)}] {what}', rp)
+            # every case is tested against the known findings on its own; what does not match one is reported
+            parts = ([(w, dict(r, group=g)) for w, r in items if is_known(dict(r, group=g))],
+                     [(w, dict(r, group=g)) for w, r in items if not is_known(dict(r, group=g))])
+            for part in parts:
+                if not part:
+                    continue
+                algs = sorted({str(rp.get('alg')) for _, rp in part})
+                what, rp = part[0]
+                rp = dict(rp, cases_in_group=len(part), key_types_in_group=algs)
+                ctx.failing_input(f'[{g}: {len(part)} case(s), key types {", ".join(algs)}] {what}', rp)
         ctx.cov['oracle']['failing_groups'] = summary
         for g in order:
             ctx.log(f'failing group: {g}  x{summary[g]}  e.g. {self.groups[g][0][0][:260]}')
@@ -853,13 +877,11 @@ def replay(rp):
               'import_public_key': asyncssh.import_public_key}[rp['api']]
         try:
             fn(b)
-        except RecursionError:
-            print('still RecursionError')
-            return 1
         except Exception as e:                 # noqa
-            print('now raises', type(e).__name__)
-            return 0
-        print('now decodes')
+            good = type(e).__name__ == ('ASN1DecodeError' if rp['api'] == 'der_decode' else 'KeyImportError')
+            print('raises', type(e).__name__)
+            return 0 if good else 1
+        print('decodes')
         return 0
     if kind == 'der_recursion':
         try:
